@@ -114,6 +114,7 @@ let () =
   (try while true do
        let line = input_line ic in
        let fs = ref [] in                      (* (key, doc) *)
+       let aliases = ref [] in
        let st = ref empty_state in
        let strict = ref true in
        let origin = ref None in
@@ -128,6 +129,15 @@ let () =
              | ["D"; f] ->
                let k = mk_key (explode f) in
                fs := List.filter (fun (k', _) -> k' <> k) !fs
+             (* K:<key as spelled>:<docid>  the OS resolves that spelling to a file with this content (- = to none);
+                KC forgets all spellings declared by K; M:<dir> is for the C++ side only *)
+             | ["K"; f; id] ->
+               let k = mk_key (explode f) in
+               fs := List.filter (fun (k', _) -> k' <> k) !fs;
+               if id <> "-" then (fs := (k, doc_of id) :: !fs; aliases := k :: !aliases)
+             | ["KC"] ->
+               fs := List.filter (fun (k', _) -> not (List.mem k' !aliases)) !fs; aliases := []
+             | ["M"; _] -> ()
              | ["N"; s] -> st := empty_state; strict := (s = "1")
              | ["P"; f] ->
                st := clear_origin_links !st;
